@@ -102,11 +102,20 @@ class PeerConn:
                 self.reader.feed_eof()
             except Exception:  # noqa: BLE001
                 pass
+        elif self.kind == "late-eof":
+            # silence first; the peer (a hung process that is finally killed) closes the connection a good second later
+            asyncio.get_event_loop().call_later(1.1, self._late_eof)  # = in the back-off that follows the 1 s request timeout
         elif self.kind == "reset":
             self.reader.set_exception(ConnectionResetError("peer reset"))
             self.writer.fail = ConnectionResetError("peer reset")
             self.writer.closed_exc = ConnectionResetError("peer reset")  # asyncio: wait_closed() of a reset connection raises
         # silence: nothing
+
+    def _late_eof(self) -> None:
+        try:
+            self.reader.feed_eof()
+        except Exception:  # noqa: BLE001
+            pass
 
     def on_write(self, b: bytes) -> None:
         p = self.peer.proto
@@ -292,7 +301,7 @@ def run_case(case: dict[str, Any]) -> dict[str, Any]:
                 rec["client_reply"] = getattr(r, "pdu", None) if r is not None else None
                 await op("close", ecu.transport.close())
 
-    status, val, dur = run_virtual(go, max_virtual=2000)
+    status, val, dur = run_virtual(go, max_virtual=2000, cpu_budget=5.0)
     rec.update(status=status, val=val, dur=dur, peer=peer, reply=reply)
     return rec
 
@@ -347,6 +356,8 @@ def check(case: dict[str, Any]) -> list[tuple[str, str]]:
         if not lost and r.get("client_reply") != reply:
             out.append((f"C08/{proto}/client/reply-lost-without-loss/{kind}", f"{ctx}"))
         return out
+    if level == "client" and kind == "late-eof":
+        return out  # only boundedness and "no invented data" are asked of this one (how many attempts it takes is not prescribed)
     if level in ("client", "wait"):
         lost = peer.cut_time is not None and not _contains_reply(proto, peer.conns[0].sent, reply)
         if level == "wait":
@@ -401,6 +412,11 @@ def enumerate_cases(did: int, level: str, restart: float, max_retry: int, protos
                           "max_retry": max_retry, "second_read": True, "pause_before_read": 0.5})
             # ... and read once more without any caller timeout: the end of the stream is known, the read must not wait for ever
             cases.append(dict(cases[-1], timeout=None, read2_no_timeout=True))
+        if level == "client":
+            # the peer hangs (silence) and is closed only after the request has timed out - in the back-off before the next attempt
+            for cut in (0, n // 2):
+                cases.append({"proto": proto, "level": level, "did": did, "cut": cut, "kind": "late-eof", "timeout": 1.0, "restart": 0.05,
+                              "max_retry": max_retry, "second_read": True, "retry_via": "client"})
         if level == "client" and proto in ("tcp-lines", "unix-lines"):
             # the lines transports try to reconnect once per retry: a peer that stays away for 1 s outlasts the request; the request
             # after that (peer back) must recover
